@@ -41,6 +41,9 @@ func NewDeadlineTransport(timeout time.Duration) *http.Transport {
 
 // stores the result in the value pointed to by ret(must be a pointer)
 func APIRequest(method string, endpoint string, body io.Reader, timeout time.Duration, ret interface{}) (int, error) {
+	if handled, code, err := verifAPIIntercept(method, endpoint, body, timeout, ret); handled {
+		return code, err
+	}
 	httpclient := &http.Client{Transport: NewDeadlineTransport(timeout)}
 	req, err := http.NewRequest(method, endpoint, body)
 	if err != nil {
